@@ -701,3 +701,770 @@ def c13_shim(ctx, prop):
      bounds="loop-free: no bound; callees uninterpreted; `<VfsEntry as Entry>::upcast` after follow modelled as identity")
 def c13_entry(ctx, prop):
     return run_dispatch(ctx, prop, "entry")
+
+
+# ------------------------------------------------------------------------------------------------
+# C18: XDG lookups, parse_paths, getrids, Memfs/Stdfs::config_dir
+# ------------------------------------------------------------------------------------------------
+XDG_INLINE = [
+    (rx(r"^config_dir$"), lambda mir, c, m: mir.get(r"^fn config_dir\(\)")),
+    (rx(r"^sys_config_dirs$"), lambda mir, c, m: mir.get(r"^fn sys_config_dirs\(\)")),
+    (rx(r"^(crate::)?sys::user::config_dir$"), lambda mir, c, m: mir.get(r"^fn config_dir\(\)")),
+    (rx(r"^(crate::)?sys::user::sys_config_dirs$"), lambda mir, c, m: mir.get(r"^fn sys_config_dirs\(\)")),
+    (rx(r"^sys::user::home_dir$"), lambda mir, c, m: mir.get(r"^fn sys::user::home_dir\(\)")),
+    (rx(r"^home_dir$"), lambda mir, c, m: mir.get(r"^fn sys::user::home_dir\(\)")),
+    (rx(r"^sys::fs::path::home_dir$"), lambda mir, c, m: mir.get(r"^fn sys::fs::path::home_dir\(\)")),
+    (rx(r"^sys::fs::path::parse_paths::<String>$"), lambda mir, c, m: mir.get(r"^fn sys::fs::path::parse_paths\(")),
+]
+
+# The oracle table, written from the XDG Base Directory text / the property statement.
+XDG_SINGLE = {
+    "config_dir": ("XDG_CONFIG_HOME", [".config"]),
+    "cache_dir": ("XDG_CACHE_HOME", [".cache"]),
+    "data_dir": ("XDG_DATA_HOME", [".local", "share"]),
+    "state_dir": ("XDG_STATE_HOME", [".local", "state"]),
+}
+XDG_LIST = {
+    "sys_config_dirs": ("XDG_CONFIG_DIRS", ["/etc/xdg"]),
+    "sys_data_dirs": ("XDG_DATA_DIRS", ["/usr/local/share", "/usr/share"]),
+    "path_dirs": ("PATH", None),
+}
+
+
+class XdgOracle:
+    def __init__(self, ex, st, env):
+        self.ex, self.st, self.env = ex, st, env
+
+    def isset(self, var):
+        s, _ = self.env.var_syms(var)
+        return self.ex.decide(self.st, s)
+
+    def home(self):
+        return "(pathof val_HOME)" if self.isset("HOME") else None
+
+    def single(self, fn):
+        var, suffix = XDG_SINGLE[fn]
+        if self.isset(var):
+            return "(pathof val_%s)" % var
+        h = self.home()
+        if h is None:
+            return None
+        for s in suffix:
+            h = "(mash %s %s)" % (h, self.env.lit(s).smt())
+        return h
+
+    def runtime(self):
+        if self.isset("XDG_RUNTIME_DIR"):
+            return "(pathof val_XDG_RUNTIME_DIR)"
+        return "(pathof %s)" % self.env.lit("/tmp").smt()
+
+    def listed(self, var):
+        """non-empty segments of the variable in order (None when unset)"""
+        if not self.isset(var):
+            return None
+        self.env.var_syms(var)
+        n = 1
+        while n < self.env.max_segs and not self.ex.decide(self.st, i_eq(I("nseg_" + var), I(n))):
+            n += 1
+        out = []
+        for j in range(n):
+            if not self.ex.decide(self.st, B("segempty_%s_%d" % (var, j))):
+                out.append("(pathof seg_%s_%d)" % (var, j))
+        return out
+
+    def dirs(self, fn):
+        var, default = XDG_LIST[fn]
+        l = self.listed(var)
+        if default is None:
+            return l  # PATH: no default in the statement; unset -> Err is accepted
+        if not l:
+            return ["(pathof %s)" % self.env.lit(d).smt() for d in default]
+        return l
+
+
+def xdg_result_terms(v):
+    """normalise a returned value into ('ok'|'err'|'none', payload-terms)"""
+    if isinstance(v, M.PT):
+        return "ok", [v.term]
+    if isinstance(v, Adt) and v.ty == "Result":
+        if v.variant == 1:
+            return "err", []
+        p = v.fields[0]
+        if isinstance(p, M.PT):
+            return "ok", [p.term]
+        if isinstance(p, M.VecM):
+            return "ok", [x.term for x in p.items]
+    if isinstance(v, Adt) and v.ty == "Option":
+        if v.variant == 0:
+            return "none", []
+        return "ok", [v.fields[0].term]
+    raise Unsupported("unexpected return value %r" % (v,))
+
+
+def xdg_model(ex, st, env, extra, extra_terms=()):
+    terms = []
+    for v in sorted(env.vars):
+        terms += ["set_" + v, "nseg_" + v] + ["segempty_%s_%d" % (v, j) for j in range(env.max_segs)]
+    terms += list(extra_terms)
+    r, model = ex.solver.check(st.pc + extra, want_model=terms)
+    if r != "sat":
+        return None
+    return {k: parse_smt_int(v) for k, v in model.items()}
+
+
+def concrete_env(env, model):
+    """model -> {VAR: None | str}; every value/segment gets a distinct readable spelling"""
+    out = {}
+    for v in sorted(env.vars):
+        if not model.get("set_" + v):
+            out[v] = None
+            continue
+        n = model.get("nseg_" + v, 1)
+        segs = []
+        for j in range(n):
+            segs.append("" if model.get("segempty_%s_%d" % (v, j)) else "/s/%s/%d" % (v.lower(), j))
+        out[v] = ":".join(segs)
+    return out
+
+
+RUST_ENV_PRELUDE = '''use rivia::prelude::*;
+fn setenv(k: &str, v: Option<&str>) {
+    match v {
+        Some(x) => std::env::set_var(k, x),
+        None => std::env::remove_var(k),
+    }
+}
+'''
+
+
+def py_expected(fn, cenv):
+    """Concrete reference semantics (from the statement) for the replay's expected value."""
+    def listed(var):
+        v = cenv.get(var)
+        if v is None:
+            return None
+        return [s for s in v.split(":") if s != ""]
+    if fn in XDG_SINGLE:
+        var, suffix = XDG_SINGLE[fn]
+        if cenv.get(var) is not None:
+            return cenv[var]
+        if cenv.get("HOME") is None:
+            return None
+        return "/".join([cenv["HOME"].rstrip("/")] + suffix)
+    if fn == "runtime_dir":
+        return cenv.get("XDG_RUNTIME_DIR") if cenv.get("XDG_RUNTIME_DIR") is not None else "/tmp"
+    var, default = XDG_LIST[fn]
+    l = listed(var)
+    if default is None:
+        return l
+    return l if l else default
+
+
+def run_xdg(ctx, prop, max_segs):
+    t0 = time.time()
+    solver = ctx.solver("c18_xdg")
+    env = M.Env(solver, max_segs)
+    models = M.make_env_models(env)
+    ex = new_executor(ctx, solver, models, XDG_INLINE, max_block_visits=4 * max_segs + 24)
+    ob = Obl()
+    unit = dict(status="pass", failures=[])
+    pending = []  # (fn, model, desc)
+
+    def fail(fn, st, desc, extra, kind="functional", extra_terms=()):
+        ob.failures.append(dict(kind=kind, desc=desc, where="sys::user::" + fn, cex=xdg_model(ex, st, env, extra, extra_terms),
+                                fn=fn))
+
+    def check_eq(st, fn, got, want, what):
+        ob.total += 1
+        if len(got) != len(want):
+            fail(fn, st, "C18: %s: %s has %d entries, specification says %d" % (fn, what, len(got), len(want)), [])
+            return
+        if not got:
+            ob.discharged += 1
+            return
+        f = "(and %s)" % " ".join("(= %s %s)" % (a, b) for a, b in zip(got, want))
+        if ex.solver.check(st.pc + ["(not %s)" % f]) == "unsat":
+            ob.discharged += 1
+        else:
+            fail(fn, st, "C18: %s: %s differs from the XDG specification" % (fn, what), ["(not %s)" % f])
+
+    # ---- single-valued lookups and lists
+    targets = [(f, r"^fn %s\(\)" % f) for f in list(XDG_SINGLE) + ["runtime_dir"] + list(XDG_LIST)]
+    for fn_name, hdr in targets:
+        fn = ctx.mir.get(hdr)
+
+        def on_path(st, fn_name=fn_name):
+            if st.panic or st.bound_hit:
+                ob.total += 1
+                fail(fn_name, st, "%s panics/loops: %s" % (fn_name, st.panic or st.bound_hit), [],
+                     kind="panic" if st.panic else "bound")
+                return
+            o = XdgOracle(ex, st, env)
+            kind, got = xdg_result_terms(st.retval)
+            if fn_name in XDG_SINGLE:
+                want = o.single(fn_name)
+            elif fn_name == "runtime_dir":
+                want = o.runtime()
+            else:
+                want = o.dirs(fn_name)
+            if want is None:
+                ob.total += 1
+                if kind == "err":
+                    ob.discharged += 1
+                elif fn_name == "path_dirs":
+                    ob.discharged += 1
+                else:
+                    fail(fn_name, st, "C18: %s returns a value although neither the variable nor HOME is set" % fn_name, [])
+                return
+            if kind != "ok":
+                ob.total += 1
+                fail(fn_name, st, "C18: %s fails although the environment determines a value" % fn_name, [])
+                return
+            check_eq(st, fn_name, got, want if isinstance(want, list) else [want], "result")
+            if len(ob.samples) < 4:
+                ob.samples.append(dict(function=fn_name, path_condition=st.pc[-3:], obligation="(= %s %s)" % (got, want)))
+
+        ex.explore(ex.start(fn, []), on_path)
+
+    # ---- parse_paths on its own argument (not via the environment)
+    # covered through sys_config_dirs/sys_data_dirs/path_dirs above (same MIR body, inlined)
+
+    # ---- getrids
+    fn = ctx.mir.get(r"^fn getrids\(_1: u32, _2: u32\)")
+    solver.declare("uid", "(_ BitVec 32)")
+    solver.declare("gid", "(_ BitVec 32)")
+
+    def on_rids(st):
+        if st.panic or st.bound_hit:
+            ob.total += 1
+            fail("getrids", st, "getrids panics: %s" % (st.panic or st.bound_hit), [], kind="panic")
+            return
+        o = XdgOracle(ex, st, env)
+        r = st.retval
+        got = [r.fields[0].smt(), r.fields[1].smt()]
+        is_root = ex.decide(st, B("(= uid (_ bv0 32))"))
+        sudo = False
+        if is_root and o.isset("SUDO_UID") and o.isset("SUDO_GID"):
+            if ex.decide(st, B("(parse_ok val_SUDO_UID)")) and ex.decide(st, B("(parse_ok val_SUDO_GID)")):
+                sudo = True
+        want = ["(parse_val val_SUDO_UID)", "(parse_val val_SUDO_GID)"] if sudo else ["uid", "gid"]
+        ob.total += 1
+        f = "(and (= %s %s) (= %s %s))" % (got[0], want[0], got[1], want[1])
+        if ex.solver.check(st.pc + ["(not %s)" % f]) == "unsat":
+            ob.discharged += 1
+        else:
+            fail("getrids", st, "C18: getrids returns %s, specification says %s" % (got, want), ["(not %s)" % f],
+                 extra_terms=["(= uid (_ bv0 32))", "(parse_ok val_SUDO_UID)", "(parse_ok val_SUDO_GID)"])
+
+    ex.explore(ex.start(fn, [BV(32, False, "uid"), BV(32, False, "gid")]), on_rids)
+
+    # ---- vfs.config_dir(name) on both backends
+    solver.declare("cfgname", "Int")
+    solver.raw("(assert (>= cfgname 0))")
+    for backend, hdr in (("Memfs", r"^fn memfs::vfs::<impl at src/sys/fs/memfs/vfs\.rs[^>]*>::config_dir\("),
+                         ("Stdfs", r"^fn stdfs::<impl at src/sys/fs/stdfs/mod\.rs[^>]*>::config_dir\(")):
+        fn = ctx.mir.get(hdr)
+
+        def on_cfg(st, backend=backend):
+            name = "%s::config_dir" % backend
+            if st.panic or st.bound_hit:
+                ob.total += 1
+                fail(name, st, "%s panics/loops: %s" % (name, st.panic or st.bound_hit), [], kind="panic")
+                return
+            o = XdgOracle(ex, st, env)
+            first = o.single("config_dir")
+            kind, got = xdg_result_terms(st.retval)
+            if first is None:
+                # neither XDG_CONFIG_HOME nor HOME: the statement fixes no result; only totality is demanded
+                ob.total += 1
+                ob.discharged += 1
+                return
+            cands = [first] + o.dirs("sys_config_dirs")
+            want = None
+            for c in cands:
+                if ex.decide(st, B("(fs_exists (mash %s cfgname))" % c)):
+                    want = c
+                    break
+            ex_terms = ["(fs_exists (mash %s cfgname))" % c for c in cands]
+            ob.total += 1
+            if want is None:
+                if kind == "none":
+                    ob.discharged += 1
+                else:
+                    fail(name, st, "C18: %s returns a directory although no candidate contains the file" % name, [],
+                         extra_terms=ex_terms)
+                    ob.failures[-1]["cands"] = cands
+                return
+            if kind != "ok":
+                fail(name, st, "C18: %s returns None although a candidate contains the file" % name, [], extra_terms=ex_terms)
+                ob.failures[-1]["cands"] = cands
+                return
+            f = "(= %s %s)" % (got[0], want)
+            if ex.solver.check(st.pc + ["(not %s)" % f]) == "unsat":
+                ob.discharged += 1
+            else:
+                fail(name, st, "C18: %s does not return the first candidate (XDG_CONFIG_HOME, then XDG_CONFIG_DIRS in order) that contains the file" % name,
+                     ["(not %s)" % f], extra_terms=ex_terms)
+                ob.failures[-1]["cands"] = cands
+
+        args = [Str(sym=I("cfgname"))]
+        if backend == "Memfs":
+            args = [BoxRef(Adt("Memfs", None, None, []))] + args
+        ex.explore(ex.start(fn, args), on_cfg)
+
+    # ---- replay failures natively (each in its own test process)
+    done = 0
+    for f in ob.failures:
+        if f["kind"] == "bound":
+            unit["status"], unit["why"] = "inconclusive", f["desc"]
+            continue
+        if f["cex"] is None:
+            unit["status"], unit["why"] = "inconclusive", "no model for " + f["desc"]
+            continue
+        if done >= 4:
+            continue
+        done += 1
+        src = xdg_replay_src(env, f)
+        r = native_test(src, ctx.logdir, "c18_%d" % done)
+        reproduced = r["ran"] and r["failed"] > 0
+        fail_rec = dict(kind=f["kind"], desc='"%s" env=%s' % (f["desc"], concrete_env(env, f["cex"])), where=f["where"],
+                        reproduced=reproduced, replay_outcome=r["out"][-500:])
+        if reproduced:
+            fail_rec["replay"] = save_replay(prop, "c18_xdg", src, f["desc"], dict(failed=r["failed"]))
+        unit["failures"].append(fail_rec)
+        unit["status"] = "violation"
+    return finish(unit, ex, solver, ob, t0, dict(models_used="env::var as symbolic Option per constant name; strings abstract; pathof/mash/exists/parse uninterpreted"))
+
+
+def xdg_replay_src(env, f):
+    cenv = concrete_env(env, f["cex"])
+    fn = f["fn"]
+    sets = "".join('    setenv("%s", %s);\n' % (k, "None" if v is None else 'Some("%s")' % v) for k, v in sorted(cenv.items()))
+    body = ""
+    if fn in XDG_SINGLE or fn == "runtime_dir":
+        exp = py_expected(fn, cenv)
+        call = "user::%s()" % fn
+        if fn == "runtime_dir":
+            body = '    assert_eq!(%s, PathBuf::from("%s"), "C18");\n' % (call, exp)
+        elif exp is None:
+            body = '    assert!(%s.is_err(), "C18: expected an error");\n' % call
+        else:
+            body = '    assert_eq!(%s.expect("C18: expected Ok"), PathBuf::from("%s"), "C18");\n' % (call, exp)
+    elif fn in XDG_LIST:
+        exp = py_expected(fn, cenv)
+        if exp is None:
+            body = '    let _ = user::%s();\n' % fn
+        else:
+            body = '    let exp: Vec<PathBuf> = vec![%s];\n    assert_eq!(user::%s().expect("C18: expected Ok"), exp, "C18");\n' % (
+                ", ".join('PathBuf::from("%s")' % e for e in exp), fn)
+    elif fn == "getrids":
+        m = f["cex"]
+        root = m.get("(= uid (_ bv0 32))")
+        uid, gid = (0, 33) if root else (1000, 33)
+        cenv2 = dict(cenv)
+        for var in ("SUDO_UID", "SUDO_GID"):
+            if cenv2.get(var) is not None:
+                cenv2[var] = ("4%d1" % len(var)) if m.get("(parse_ok val_%s)" % var) else "x-not-a-number"
+        sets = "".join('    setenv("%s", %s);\n' % (k, "None" if v is None else 'Some("%s")' % v) for k, v in sorted(cenv2.items()))
+        both = root and all(cenv2.get(v) is not None and cenv2[v].isdigit() for v in ("SUDO_UID", "SUDO_GID"))
+        exp = "(%s, %s)" % (cenv2["SUDO_UID"], cenv2["SUDO_GID"]) if both else "(%d, %d)" % (uid, gid)
+        body = '    assert_eq!(user::getrids(%d, %d), %s, "C18: getrids");\n' % (uid, gid, exp)
+    else:  # X::config_dir
+        backend = fn.split("::")[0]
+        m = f["cex"]
+        first = py_expected("config_dir", cenv)
+        cands = [first] + py_expected("sys_config_dirs", cenv)
+        flags = [bool(m.get("(fs_exists (mash %s cfgname))" % c)) for c in f.get("cands", [])]
+        flags += [False] * (len(cands) - len(flags))
+        want = next((c for c, fl in zip(cands, flags) if fl), None)
+        if backend == "Memfs":
+            mk = "    let vfs = Memfs::new();\n"
+            root = ""
+        else:
+            mk = '    let root = std::env::temp_dir().join(format!("rivia_c18_{}", std::process::id()));\n    let _ = std::fs::remove_dir_all(&root);\n    let vfs = Stdfs::new();\n'
+            root = None
+        if backend == "Stdfs":
+            # sandbox the candidates under a temp root by prefixing every configured directory
+            cenv = {k: (None if v is None else ":".join(("" if s == "" else "/tmp/rivia_c18_root" + s) for s in v.split(":"))) for k, v in cenv.items()}
+            sets = "".join('    setenv("%s", %s);\n' % (k, "None" if v is None else 'Some("%s")' % v) for k, v in sorted(cenv.items()))
+            first = py_expected("config_dir", cenv)
+            cands = [first] + py_expected("sys_config_dirs", cenv)
+            want = next((c for c, fl in zip(cands, flags) if fl), None)
+            mk = '    let _ = std::fs::remove_dir_all("/tmp/rivia_c18_root");\n    let vfs = Stdfs::new();\n'
+        mk += "".join('    vfs.mkdir_p("%s").unwrap();\n    vfs.mkfile("%s/app.toml").unwrap();\n' % (c, c) for c, fl in zip(cands, flags) if fl)
+        body = mk + '    let got = vfs.config_dir("app.toml");\n'
+        body += ('    assert_eq!(got, Some(PathBuf::from("%s")), "C18: config_dir precedence");\n' % want) if want else \
+            '    assert_eq!(got, None, "C18: config_dir");\n'
+        if backend == "Stdfs":
+            body += '    let _ = std::fs::remove_dir_all("/tmp/rivia_c18_root");\n'
+    return RUST_ENV_PRELUDE + "#[test]\nfn replay_xdg() {\n    // %s\n%s%s}\n" % (f["desc"].replace("\n", " "), sets, body)
+
+
+@job("c18_xdg_s3", ["C18", "C12"], "quick",
+     functions=["sys::user::{config_dir,cache_dir,data_dir,state_dir,runtime_dir,sys_config_dirs,sys_data_dirs,path_dirs,getrids,home_dir} (real MIR)",
+                "sys::fs::path::{home_dir,parse_paths} (real MIR, inlined)", "Memfs::config_dir, Stdfs::config_dir (real MIR)"],
+     bounds="every environment over the variables read (each unset / set), list variables with 1..=3 ':'-separated segments each empty or not; uid,gid any u32; exists() any predicate")
+def c18_quick(ctx, prop):
+    return run_xdg(ctx, prop, 3)
+
+
+@job("c18_xdg_s6", ["C18", "C12"], "thorough",
+     functions=["same as c18_xdg_s3"],
+     bounds="list variables with 1..=6 segments")
+def c18_thorough(ctx, prop):
+    return run_xdg(ctx, prop, 6)
+
+
+# ------------------------------------------------------------------------------------------------
+# C11: chmod::mode (symbolic grammar) and the integer kernels
+# ------------------------------------------------------------------------------------------------
+CHMOD_INLINE = [
+    (rx(r"^_pop$"), lambda mir, c, m: mir.get(r"^fn (?:[\w:]+::)?_pop\(_1: &mut Vec<char>")),
+]
+
+
+def ch_eq(c, k):
+    from .mirsym.values import bv_bin
+    return bv_bin("Eq", c, BV(32, False, ord(k)))
+
+
+def ch_in(ex, st, c, alphabet):
+    for k in alphabet:
+        if ex.decide(st, ch_eq(c, k)):
+            return k
+    return None
+
+
+def parse_clause(ex, st, chars, i, one_target):
+    """Matches `[dfa]+:[ugoa]+[-+=][rwx]+` (or exactly one target char) at chars[i:], stopping before
+    a ',' or at the end.  Returns (ok, next_i, targets, group, op, perm)."""
+    n = len(chars)
+    targets = []
+    while i < n:
+        k = ch_in(ex, st, chars[i], "dfa")
+        if k is None:
+            break
+        targets.append(k)
+        i += 1
+    if not targets or (one_target and len(targets) != 1):
+        return (False, i, targets, 0, None, 0)
+    if i >= n or not ex.decide(st, ch_eq(chars[i], ":")):
+        return (False, i, targets, 0, None, 0)
+    i += 1
+    group = 0
+    gmask = {"u": 0o700, "g": 0o070, "o": 0o007, "a": 0o777}
+    ng = 0
+    while i < n:
+        k = ch_in(ex, st, chars[i], "ugoa")
+        if k is None:
+            break
+        group |= gmask[k]
+        ng += 1
+        i += 1
+    if ng == 0 or i >= n:
+        return (False, i, targets, group, None, 0)
+    op = ch_in(ex, st, chars[i], "-+=")
+    if op is None:
+        return (False, i, targets, group, None, 0)
+    i += 1
+    perm = 0
+    pmask = {"r": 0o444, "w": 0o222, "x": 0o111}
+    np_ = 0
+    while i < n:
+        k = ch_in(ex, st, chars[i], "rwx")
+        if k is None:
+            break
+        perm |= pmask[k]
+        np_ += 1
+        i += 1
+    if np_ == 0:
+        return (False, i, targets, group, op, perm)
+    return (True, i, targets, group, op, perm)
+
+
+def chmod_oracle(ex, st, chars, entry):
+    """Returns ('ok', BV mode) when the whole string is clause(,clause)* with single-char targets,
+    else ('other', first_clause_wellformed: bool)."""
+    from .mirsym.values import bv_bin, bv_not
+    n = len(chars)
+    i = 0
+    mode = entry.mode
+    first_ok = None
+    whole = True
+    clauses = []
+    while True:
+        ok, j, targets, group, op, perm = parse_clause(ex, st, chars, i, one_target=False)
+        at_end = ok and (j == n or ex.decide(st, ch_eq(chars[j], ",")))
+        if first_ok is None:
+            first_ok = bool(ok and at_end)
+        if not (ok and at_end):
+            whole = False
+            break
+        if len(targets) != 1:
+            whole = False
+            break
+        clauses.append((targets[0], group, op, perm))
+        if j == n:
+            break
+        i = j + 1
+        if i >= n:
+            whole = False  # trailing comma
+            break
+    if not whole:
+        return ("other", first_ok)
+    for t, group, op, perm in clauses:
+        gp = BV(32, False, group & perm)
+        if op == "-":
+            new = bv_bin("BitAnd", mode, bv_not(gp))
+        elif op == "+":
+            new = bv_bin("BitOr", mode, gp)
+        else:
+            new = bv_bin("BitOr", bv_bin("BitAnd", mode, bv_not(BV(32, False, group))), gp)
+        if t == "a":
+            applies = B(True)
+        elif t == "d":
+            applies = entry.is_dir
+        else:
+            applies = entry.is_file
+        if applies.concrete:
+            mode = new if applies.v else mode
+        else:
+            mode = BV(32, False, "(ite %s %s %s)" % (applies.smt(), new.smt(), mode.smt()))
+    return ("ok", mode)
+
+
+def chmod_model(ex, st, chars, extra):
+    terms = [c.v for c in chars if not c.concrete] + ["e_dir", "e_file", "e_link", "e_mode", "octal"]
+    r, model = ex.solver.check(st.pc + extra, want_model=terms)
+    if r != "sat":
+        return None
+    m = {k: parse_smt_int(v) for k, v in model.items()}
+    s = "".join(chr(m[c.v]) if not c.concrete else chr(c.v) for c in chars)
+    return dict(sym=s, is_dir=m["e_dir"], is_file=m["e_file"], is_link=m["e_link"], mode=m["e_mode"], octal=m["octal"])
+
+
+def py_chmod_expected(sym, kind, mode):
+    """concrete reference for the replay: returns new perm bits or None when not of the form clause(,clause)*"""
+    import re as _re
+    parts = sym.split(",")
+    out = mode
+    for p in parts:
+        m = _re.fullmatch(r"([dfa]):([ugoa]+)([-+=])([rwx]+)", p)
+        if not m:
+            return None
+        g = 0
+        for ch in m.group(2):
+            g |= {"u": 0o700, "g": 0o070, "o": 0o007, "a": 0o777}[ch]
+        pm = 0
+        for ch in m.group(4):
+            pm |= {"r": 0o444, "w": 0o222, "x": 0o111}[ch]
+        if m.group(1) == "a" or m.group(1) == kind:
+            if m.group(3) == "-":
+                out &= ~(g & pm)
+            elif m.group(3) == "+":
+                out |= g & pm
+            else:
+                out = (out & ~g) | (g & pm)
+    return out
+
+
+def chmod_replay_src(cex, desc):
+    kind = "link" if cex["is_link"] else ("d" if cex["is_dir"] else "f")
+    perm = cex["mode"] & 0o777
+    sym = cex["sym"].replace("\\", "\\\\").replace('"', '\\"')
+    exp = py_chmod_expected(cex["sym"], kind, perm)
+    first = cex["sym"].split(",")[0]
+    import re as _re
+    first_ok = bool(_re.fullmatch(r"[dfa]+:[ugoa]+[-+=][rwx]+", first))
+    mk = {"f": 'vfs.mkfile_m(&p, 0o%o).unwrap();' % perm, "d": 'vfs.mkdir_m(&p, 0o%o).unwrap();' % perm,
+          "link": 'vfs.mkfile_m(&t, 0o640).unwrap(); vfs.symlink(&p, &t).unwrap();'}[kind]
+    checks = ""
+    if kind == "link":
+        checks = '    let before = (vfs.mode(&t).unwrap(), vfs.entry(&p).unwrap().mode());\n    let _ = r;\n' \
+                 '    assert_eq!((vfs.mode(&t).unwrap(), vfs.entry(&p).unwrap().mode()), before, "C11: chmod without follow altered a symlink or its target");\n'
+        pre = ""
+    elif exp is not None:
+        checks = '    assert!(r.is_ok(), "C11: well-formed expression rejected: {:?}", r);\n' \
+                 '    assert_eq!(vfs.mode(&p).unwrap() & 0o7777, 0o%o, "C11: permission bits after chmod sym");\n' % exp
+    elif not first_ok:
+        checks = '    assert!(r.is_err(), "C11: malformed first clause accepted");\n' \
+                 '    assert_eq!(vfs.mode(&p).unwrap() & 0o7777, 0o%o, "C11: failed chmod changed the mode");\n' % perm
+    else:
+        checks = '    let _ = r;\n'
+    checks += '    assert_eq!(vfs.mode(&p).unwrap() & !0o7777, ty, "C11: file type bits changed");\n' if kind != "link" else ""
+    return '''use rivia::prelude::*;
+#[test]
+fn replay_chmod_sym() {
+    // %s
+    let vfs = Memfs::new();
+    let (p, t) = (PathBuf::from("/p"), PathBuf::from("/t"));
+    %s
+    let ty = vfs.mode(&p).unwrap_or(0) & !0o7777;
+    let r = vfs.chmod_b(&p).unwrap().sym("%s").exec();
+%s}
+''' % (desc.replace("\n", " "), mk, sym, checks)
+
+
+def run_chmod_mode(ctx, prop, lmax, lmin=0, templates=None, tag="c11_mode"):
+    from .mirsym.values import bv_bin
+    t0 = time.time()
+    solver = ctx.solver(tag)
+    models = M.make_chmod_models()
+    ex = new_executor(ctx, solver, models, CHMOD_INLINE, max_block_visits=6 * lmax + 40)
+    fn = ctx.mir.get(r"^fn (?:[\w:]+::)?chmod::mode\(_1: &sys::fs::entry::VfsEntry, _2: u32, _3: &str\)")
+    for nm, sort in (("e_dir", "Bool"), ("e_file", "Bool"), ("e_link", "Bool"), ("e_mode", "(_ BitVec 32)"),
+                     ("octal", "(_ BitVec 32)")):
+        solver.declare(nm, sort)
+    entry = M.EntryM(B("e_dir"), B("e_file"), B("e_link"), BV(32, False, "e_mode"))
+    base_pc = ["(not (and e_dir e_file))", "(bvule e_mode #x0000ffff)"]
+    ob = Obl()
+    unit = dict(status="pass", failures=[])
+    shapes = [(L, None) for L in range(lmin, lmax + 1)] if templates is None else [(len(t), t) for t in templates]
+    for si, (L, tmpl) in enumerate(shapes):
+        chars = []
+        cons = []
+        for i in range(L):
+            nm = "s%d_%d_c%d" % (L, si, i)
+            solver.declare(nm, "(_ BitVec 32)")
+            chars.append(BV(32, False, nm))
+            if tmpl is None or tmpl[i] is None:
+                cons.append("(bvule %s #x0010ffff)" % nm)  # any char (surrogates excluded below)
+                cons.append("(not (and (bvuge %s #x0000d800) (bvule %s #x0000dfff)))" % (nm, nm))
+            elif len(tmpl[i]) == 1:
+                chars[-1] = BV(32, False, ord(tmpl[i]))
+            else:
+                cons.append("(or %s)" % " ".join("(= %s (_ bv%d 32))" % (nm, ord(k)) for k in tmpl[i]))
+
+        def on_path(st, chars=chars, L=L):
+            cf = lambda extra: chmod_model(ex, st, chars, extra)
+            if st.panic or st.bound_hit:
+                ob.total += 1
+                ob.failures.append(dict(kind="panic" if st.panic else "bound", where="sys::fs::chmod::mode",
+                                        desc="chmod::mode panics/loops: %s" % (st.panic or st.bound_hit), cex=cf([])))
+                return
+            r = st.retval
+            octal_zero = ex.decide(st, B("(= octal #x00000000)"))
+            if not octal_zero:
+                ob.prove(ex, st, "C11: octal mode takes priority", B(r.variant == 0) if r.variant != 0 else
+                         bv_bin("Eq", r.fields[0], BV(32, False, "octal")), cf)
+                return
+            if L == 0:
+                return
+            is_link = ex.decide(st, entry.is_symlink)
+            if is_link:
+                if r.variant == 0:
+                    ob.prove(ex, st, "C11: a symlink itself is never altered (L=%d)" % L,
+                             bv_bin("Eq", r.fields[0], entry.mode), cf)
+                return
+            kind, val = chmod_oracle(ex, st, chars, entry)
+            if kind == "ok":
+                if r.variant != 0:
+                    ob.total += 1
+                    ob.failures.append(dict(kind="functional", where="sys::fs::chmod::mode", cex=cf([]),
+                                            desc="C11: well-formed symbolic expression rejected (L=%d)" % L))
+                else:
+                    ob.prove(ex, st, "C11: symbolic mode == documented grammar applied clause by clause to the targeted kind (L=%d)" % L,
+                             bv_bin("Eq", r.fields[0], val), cf)
+                    if len(ob.samples) < 4 and (L == lmax or tmpl is not None):
+                        m = cf([])
+                        if m:
+                            ob.samples.append(dict(obligation="mode(entry,0,sym) == oracle", sym=m["sym"], entry_mode=oct(m["mode"])))
+            else:
+                if val is False:
+                    ob.prove(ex, st, "C11: malformed first clause must be reported as an error (L=%d)" % L,
+                             B(r.variant == 1), cf)
+            if r.variant == 0:
+                keep = bv_bin("Eq", bv_bin("BitAnd", r.fields[0], BV(32, False, 0xFFFFF000)),
+                              bv_bin("BitAnd", entry.mode, BV(32, False, 0xFFFFF000)))
+                ob.prove(ex, st, "C11: file-type bits are kept (L=%d)" % L, keep, cf)
+
+        st0 = ex.start(fn, [BoxRef(entry), BV(32, False, "octal"), BoxRef(M.CharStr(chars))])
+        st0.pc = base_pc + cons
+        ex.explore(st0, on_path)
+    seen = set()
+    for f in ob.failures:
+        if f["kind"] == "bound":
+            unit["status"], unit["why"] = "inconclusive", f["desc"]
+            continue
+        if f["cex"] is None:
+            unit["status"], unit["why"] = "inconclusive", "no model for " + f["desc"]
+            continue
+        key = re.sub(r"\(L=\d+\)", "", f["desc"])
+        if key in seen:
+            continue
+        seen.add(key)
+        src = chmod_replay_src(f["cex"], f["desc"])
+        r = native_test(src, ctx.logdir, "c11_%d" % len(seen))
+        reproduced = r["ran"] and r["failed"] > 0
+        rec = dict(kind=f["kind"], desc='"%s" sym=%r entry=%s' % (f["desc"], f["cex"]["sym"], {k: v for k, v in f["cex"].items() if k != "sym"}),
+                   where=f["where"], reproduced=reproduced, replay_outcome=r["out"][-500:], role=key)
+        if reproduced:
+            rec["replay"] = save_replay(prop, "c11_mode", src, f["desc"], dict(failed=r["failed"]))
+        unit["failures"].append(rec)
+        unit["status"] = "violation"
+    return finish(unit, ex, solver, ob, t0, dict(models_used="&str as a symbolic char array of concrete length; Vec<char>; VfsEntry accessors as symbolic flags/mode"))
+
+
+@job("c11_mode_l4", ["C11", "C12"], "quick",
+     functions=["sys::fs::chmod::mode (real MIR)", "sys::fs::chmod::_pop (real MIR, inlined)"],
+     bounds="every string of 0..=4 chars (any Unicode scalar), every entry (is_dir,is_file,is_symlink,mode<=0xffff), octal any u32")
+def c11_quick(ctx, prop):
+    return run_chmod_mode(ctx, prop, 4, tag="c11_mode_l4")
+
+
+@job("c11_mode_l5", ["C11", "C12"], "quick",
+     functions=["sys::fs::chmod::mode (real MIR)", "sys::fs::chmod::_pop (real MIR, inlined)"],
+     bounds="every string of exactly 5 chars (any Unicode scalar; the shortest complete clause), every entry, octal any u32")
+def c11_quick5(ctx, prop):
+    return run_chmod_mode(ctx, prop, 5, lmin=5, tag="c11_mode_l5")
+
+
+@job("c11_mode_l7", ["C11", "C12"], "thorough",
+     functions=["sys::fs::chmod::mode (real MIR)", "sys::fs::chmod::_pop (real MIR, inlined)"],
+     bounds="every string of 6..=7 chars (any Unicode scalar), every entry, octal any u32")
+def c11_l7(ctx, prop):
+    return run_chmod_mode(ctx, prop, 7, lmin=6, tag="c11_mode_l7")
+
+
+T, G, O, P = "dfa", "ugoa", "-+=", "rwx"
+
+
+def _mk_double_reduced(t):
+    @job("c11_mode_double_reduced_" + t, ["C11", "C12"], "quick",
+         functions=["sys::fs::chmod::mode (real MIR)"],
+         bounds="every double clause `%s:G±P,T:a±x` with T in [dfa], G in [ugoa], ± in [-+=], P in [rwx], every entry kind and mode" % t)
+    def f(ctx, prop):
+        return run_chmod_mode(ctx, prop, 11, templates=[[t, ":", G, O, P, ",", T, ":", "a", O, "x"]], tag="c11_double_reduced_" + t)
+    return f
+
+
+for _t in T:
+    _mk_double_reduced(_t)
+
+
+def _mk_double_full(t, g):
+    @job("c11_mode_double_full_%s%s" % (t, g), ["C11", "C12"], "thorough",
+         functions=["sys::fs::chmod::mode (real MIR)"],
+         bounds="every double clause `%s:%s±P,T:G±P` over the grammar alphabet, every entry kind and mode" % (t, g))
+    def f(ctx, prop):
+        return run_chmod_mode(ctx, prop, 11, templates=[[t, ":", g, O, P, ",", T, ":", G, O, P]], tag="c11_double_full_%s%s" % (t, g))
+    return f
+
+
+for _t in T:
+    for _g in G:
+        _mk_double_full(_t, _g)
+
+
+@job("c11_mode_multi", ["C11", "C12"], "thorough",
+     functions=["sys::fs::chmod::mode (real MIR)"],
+     bounds="every single clause `T:GG±PP` (two group and two permission letters)")
+def c11_multi(ctx, prop):
+    return run_chmod_mode(ctx, prop, 7, templates=[[T, ":", G, G, O, P, P]], tag="c11_multi")
+
+
+@job("c11_mode_l9", ["C11", "C12"], "thorough",
+     functions=["sys::fs::chmod::mode (real MIR)", "sys::fs::chmod::_pop (real MIR, inlined)"],
+     bounds="every string of 8..=9 chars (any Unicode scalar), every entry, octal any u32")
+def c11_l9(ctx, prop):
+    return run_chmod_mode(ctx, prop, 9, lmin=8, tag="c11_mode_l9")
